@@ -78,6 +78,13 @@ impl StreamExecutor {
         ensures final(self).err_cb_calls@ == old(self).err_cb_calls@ + 1, final(self).same_counters(old(self)),
                 final(self).instruments == old(self).instruments, final(self).futures_timeout == old(self).futures_timeout,
     { }
+    /// `tokio::spawn(on_err_callback(err))`: MECHANISM obligation -- the error handling of an item must be complete when the item processor returns
+    /// (for_each(_concurrent) counts the item as done then; the close callback runs after the last item is done)
+    #[verifier::external_body]
+    pub fn err_callback_detached(&mut self, err: ErrBox) requires false { }
+    /// `on_err_callback(err);` without `.await`: the future is dropped unpolled -- the callback never runs
+    #[verifier::external_body]
+    pub fn err_callback_never_run(&mut self, err: ErrBox) requires false { }
     pub open spec fn same_counters(&self, o: &Self) -> bool {
         self.ok_events_avg_future_duration == o.ok_events_avg_future_duration && self.timed_out_events_avg_future_duration == o.timed_out_events_avg_future_duration
         && self.failed_events_avg_future_duration == o.failed_events_avg_future_duration
@@ -99,7 +106,17 @@ INSTR = Rule("R15-INSTRUMENTS", r"Self::INSTRUMENTS\b", "self.instruments", min=
 AWAIT_ITEM = Rule("R10-await-item", r"\bfuture_element\.await", "future_element.resolve()", count=1)
 TIMEOUT_F = Rule("R10-timeout", r"\btimeout\(self\.futures_timeout, future_element\)\.await", "timeout_fallible(self.futures_timeout, future_element)", count=1)
 TIMEOUT_P = Rule("R10-timeout", r"\btimeout\(self\.futures_timeout, future_element\)\.await", "timeout_plain(self.futures_timeout, future_element)", count=1)
-ERRCB_ASYNC = Rule("R15-err-callback", r"\bon_err_callback_ref\(err\)\.await;", "self.err_callback(err);", min=1)
+def _errcb(m):
+    if m.group(1):
+        return "self.err_callback_detached(err);"      # tokio::spawn(on_err_callback_ref(err)): runs some time later, nobody waits for it
+    if not m.group(3):
+        return "self.err_callback_never_run(err);"     # the future is created and dropped: never polled
+    return "self.err_callback(err);"
+
+
+ERRCB_ASYNC = Rule("R15-err-callback", r"(tokio::spawn\(\s*)?\bon_err_callback_ref\(err\)(\s*\))?(\.await)?;", _errcb, min=1,
+                   note="on_err_callback_ref(err).await -> err_callback; a detached (tokio::spawn) or never-awaited call -> shims whose precondition is false: the item does not "
+                        "count as processed before its error handling completed (C11), and the close callback must not overtake it (C12)")
 ERRCB_SYNC = Rule("R15-err-callback", r"\bon_err_callback\(err\);", "self.err_callback(err);", count=1)
 
 OUT_FALLIBLE = "(if future_element.ok { Outcome::Ok } else { Outcome::Failed })"
@@ -109,7 +126,7 @@ OUT_PLAIN_T = "(if future_element.slow { Outcome::TimedOut } else { Outcome::Ok 
 
 def item(fnname, out, nth, anchor, sig, rules, ensures):
     f = FnSpec(F, fnname, impl=IMPL, out_name=out, block_anchor=anchor, block_nth=nth, macros=ITEM_MACROS, sig=sig, sig_anchor=r"\bfn " + fnname + r"\b",
-               rules=rules, ensures=ensures, props=["C11"])
+               rules=rules, ensures=ensures, props=["C11", "C12"] if any(r is ERRCB_ASYNC for r in rules) else ["C11"])
     f.container = CONTAINER
     return f
 
@@ -335,3 +352,64 @@ UNIT_LIFE = Unit("executor_life", LIFE, spec=LIFE_SPEC,
                  assumptions=["S-model: report_scheduled_to_finish() racing the end (a `store` that may overwrite an ended state) is NOT covered",
                               "out-of-order completion inside for_each_concurrent and real scheduling are outside the model"])
 UNITS = [UNIT_ITEMS, UNIT_LIFE]
+
+
+# ------------------------------------------------------------------------------------------------------------------------------------
+# executor_stats: the `StreamExecutorStats` view of an executor -- what the close callback / `Multi` / `Uni` read through
+# `Arc<dyn StreamExecutorStats>`. Each accessor hands out the field of ITS OWN name (C11: an outcome is reported under the counter it was
+# recorded in; C12: the close callback finds the status / timestamps of this executor).
+# ------------------------------------------------------------------------------------------------------------------------------------
+SPEC_STATS = r"""
+/// a field of the executor, tagged (ghost) with which one it is
+pub struct Field { pub which: Ghost<int> }
+pub struct NanosCell { pub v: u64 }
+impl NanosCell { pub fn load(&self, o: Ordering) -> (r: u64) ensures r == self.v { self.v } }
+pub enum ExecutorStatus { NotStarted, Running, ScheduledToFinish, ProgrammaticallyEnded, StreamEnded }
+pub struct StatusCell { pub which: Ghost<int>, pub stored: Ghost<Seq<ExecutorStatus>> }
+impl StatusCell {
+    #[verifier::external_body]
+    pub fn store(&mut self, s: ExecutorStatus, o: Ordering) ensures final(self).stored@ == old(self).stored@.push(s), final(self).which == old(self).which { }
+}
+pub struct StreamExecutor {
+    pub executor_name: Field, pub futures_timeout: Field, pub creation_time: Field, pub executor_status: StatusCell,
+    pub execution_start_delta_nanos: NanosCell, pub execution_finish_delta_nanos: NanosCell,
+    pub ok_events_avg_future_duration: Field, pub timed_out_events_avg_future_duration: Field, pub failed_events_avg_future_duration: Field,
+}
+impl StreamExecutor {
+    /// the fields are different objects
+    pub open spec fn tagged(&self) -> bool {
+        self.executor_name.which@ == 1 && self.futures_timeout.which@ == 2 && self.creation_time.which@ == 3 && self.executor_status.which@ == 4
+        && self.ok_events_avg_future_duration.which@ == 5 && self.timed_out_events_avg_future_duration.which@ == 6 && self.failed_events_avg_future_duration.which@ == 7
+    }
+}
+"""
+F_EXEC = "src/stream_executor.rs"
+IMPL_STATS = r"StreamExecutorStats\s+for\s+StreamExecutor\s*<\s*INSTRUMENTS_USIZE\s*>\s*(?=\{)"
+
+
+def _stats_fn(name, sig, anchor, ensures, props, requires="self.tagged()", rules=()):
+    f = FnSpec(F_EXEC, name, impl=IMPL_STATS, props=props, sig=sig, sig_anchor=anchor, requires=requires, ensures=ensures, rules=list(rules))
+    f.container = "impl StreamExecutor"
+    return f
+
+
+FNS_STATS = [
+    _stats_fn("executor_name", "pub fn executor_name(&self) -> (r: &Field)", r"fn executor_name\(&self\) -> &String", "r.which@ == 1", ["C12"]),
+    _stats_fn("futures_timeout", "pub fn futures_timeout(&self) -> (r: &Field)", r"fn futures_timeout\(&self\) -> &Duration", "r.which@ == 2", ["C11"]),
+    _stats_fn("creation_time", "pub fn creation_time(&self) -> (r: &Field)", r"fn creation_time\(&self\) -> &Instant", "r.which@ == 3", ["C12"]),
+    _stats_fn("executor_status", "pub fn executor_status(&self) -> (r: &StatusCell)", r"fn executor_status\(&self\) -> &AtomicExecutorStatus", "r.which@ == 4", ["C12"]),
+    _stats_fn("execution_start_delta_nanos", "pub fn execution_start_delta_nanos(&self) -> (r: u64)", r"fn execution_start_delta_nanos\(&self\) -> u64", "r == self.execution_start_delta_nanos.v", ["C12"]),
+    _stats_fn("execution_finish_delta_nanos", "pub fn execution_finish_delta_nanos(&self) -> (r: u64)", r"fn execution_finish_delta_nanos\(&self\) -> u64", "r == self.execution_finish_delta_nanos.v", ["C12"]),
+    _stats_fn("ok_events_avg_future_duration", "pub fn ok_events_avg_future_duration(&self) -> (r: &Field)", r"fn ok_events_avg_future_duration\(&self\) -> &AtomicIncrementalAverage64", "r.which@ == 5", ["C11"]),
+    _stats_fn("timed_out_events_avg_future_duration", "pub fn timed_out_events_avg_future_duration(&self) -> (r: &Field)", r"fn timed_out_events_avg_future_duration\(&self\) -> &AtomicIncrementalAverage64", "r.which@ == 6", ["C11"]),
+    _stats_fn("failed_events_avg_future_duration", "pub fn failed_events_avg_future_duration(&self) -> (r: &Field)", r"fn failed_events_avg_future_duration\(&self\) -> &AtomicIncrementalAverage64", "r.which@ == 7", ["C11"]),
+    _stats_fn("report_scheduled_to_finish", "pub fn report_scheduled_to_finish(&mut self)", r"fn report_scheduled_to_finish\(&self\)",
+              "final(self).executor_status.stored@ == old(self).executor_status.stored@.push(ExecutorStatus::ScheduledToFinish)", ["C12"], requires="old(self).tagged()"),
+]
+UNIT_STATS = Unit("executor_stats", FNS_STATS, spec=SPEC_STATS,
+                  trusted=["the fields are opaque tagged objects; the atomic cells are exact"],
+                  assumptions=["report_scheduled_to_finish racing the end of the executor (a store over an 'ended' state) is the residue of C12"])
+try:
+    UNITS.append(UNIT_STATS)
+except NameError:
+    UNITS = [UNIT, UNIT_STATS] if "UNIT" in globals() else [UNIT_STATS]
